@@ -39,6 +39,9 @@ pub mod plan;
 pub mod value;
 pub mod sort;
 pub mod agg;
+pub mod engine;
+pub mod bulk;
+pub mod cypher14;
 
 pub fn all() -> Vec<StreamDef> {
     vec![
@@ -63,6 +66,12 @@ pub fn all() -> Vec<StreamDef> {
         value::def(),
         sort::def(),
         agg::def(),
+        engine::def(),
+        engine::def_reopen(),
+        engine::def_compact(),
+        engine::def_abort(),
+        bulk::def(),
+        cypher14::def(),
     ]
 }
 
